@@ -6,17 +6,32 @@ Model: `Model/Sighash.lean` (mirrors `_signature_hash`, `delete_subscript`, `_de
 of `SegwitChecker`, the Bcash/Bgold/Groestlcoin overrides).  Spec: `Spec/Sighash.lean` (Core's
 `CTransactionSignatureSerializer`, `FindAndDelete`, BIP143, the fork-id variants), written independently.
 SHA-256 is a function symbol: digests are equal because the digested bytes are.
-`Tx.WF` = every field in its wire range; `Complete s` = every push of `s` is complete; `LenOk s` = `|s| < 2^63`.
+`Tx.WF` = every field in its wire range; `Complete s` = every push of `s` is complete; `TailWritten s` = Core's
+`SerializeScriptCode` writes the whole undecodable rest of `s` (implied by `Complete s`); `LenOk s` = `|s| < 2^63`.
 -/
 namespace Pycoin.Sighash
 open Pycoin Pycoin.Wire Pycoin.Spec.Sighash Pycoin.Spec.Wire
 
 /-! ## legacy -/
 
-/-- C04.legacy_preimage_eq: for every transaction with fields in range, every input index, every script code whose
-pushes are complete and every 32-bit hash-type word, the bytes `_signature_hash` digests are the bytes Core's
-`CTransactionSignatureSerializer` writes (every NONE/SINGLE/ANYONECANPAY combination, any value of the unused bits),
-and the early return happens exactly when consensus returns the constant one -/
+/-- C04.legacy_preimage_eq (widest scope): for every transaction with fields in range, every input index, every 32-bit hash-type word
+and every script code of which Core's `SerializeScriptCode` writes the whole undecodable rest (`TailWritten`: every
+script whose pushes are complete, and those whose cut-short last push is cut right after its opcode / inside its length
+field's first missing byte), the bytes `_signature_hash` digests are the bytes Core's `CTransactionSignatureSerializer`
+writes (every NONE/SINGLE/ANYONECANPAY combination, any value of the unused bits), and the early return happens exactly
+when consensus returns the constant one.  (For the remaining script codes see `C04_codeseparator_strip` and
+`C04_codeseparator_strip_refuted`.) -/
+theorem C04_legacy_preimage_eq_tailWritten (c : Coin) (tx : Tx) (hwf : tx.WF) (idx : Nat) (hidx : idx < tx.ins.length)
+    (script : Bytes) (hc : TailWritten script) (hlen : LenOk script) (ht : Nat) (hht : ht < 2 ^ 32) :
+    Sighash.legacyPreimage c tx script idx ht =
+      .ok (if fHashSingle ht && decide (idx ≥ tx.outs.length) then none
+           else some (Spec.Sighash.legacyPreimage tx idx script ht)) :=
+  legacyPreimage_eq_tw c tx hwf idx hidx script hc hlen ht hht
+
+/-- every script whose pushes are complete is in the scope of the legacy theorems -/
+theorem C04_complete_in_scope (script : Bytes) (hc : Complete script) : TailWritten script := tailWritten_of_complete hc
+
+/-- C04.legacy_preimage_eq: the same for every script code whose pushes are complete (every script that can validate) -/
 theorem C04_legacy_preimage_eq (c : Coin) (tx : Tx) (hwf : tx.WF) (idx : Nat) (hidx : idx < tx.ins.length)
     (script : Bytes) (hc : Complete script) (hlen : LenOk script) (ht : Nat) (hht : ht < 2 ^ 32) :
     Sighash.legacyPreimage c tx script idx ht =
@@ -26,102 +41,133 @@ theorem C04_legacy_preimage_eq (c : Coin) (tx : Tx) (hwf : tx.WF) (idx : Nat) (h
 
 theorem beNat_one : beNat Spec.Sighash.one = Gen.Sighash.singleBugValue := by decide +kernel
 
-/-- C04.legacy_digest_eq: `_signature_hash` of the Bitcoin, Litecoin and Groestlcoin classes returns consensus'
-`SignatureHash` (as the big-endian integer of its 32 bytes), including the constant `0x01‖0^31` for SIGHASH_SINGLE
-without a matching output -/
-theorem C04_legacy_digest_eq (c : Coin) (hc' : requiresForkId c = false) (tx : Tx) (us : List (Option TxOut)) (hwf : tx.WF)
-    (idx : Nat) (hidx : idx < tx.ins.length) (script : Bytes) (hc : Complete script) (hlen : LenOk script)
+/-- C04.legacy_digest_eq (widest scope): `_signature_hash` of the Bitcoin, Litecoin and Groestlcoin classes returns
+consensus' `SignatureHash` (as the big-endian integer of its 32 bytes), including the constant `0x01‖0^31` for
+SIGHASH_SINGLE without a matching output -/
+theorem C04_legacy_digest_eq_tailWritten (c : Coin) (hc' : requiresForkId c = false) (tx : Tx) (us : List (Option TxOut)) (hwf : tx.WF)
+    (idx : Nat) (hidx : idx < tx.ins.length) (script : Bytes) (hc : TailWritten script) (hlen : LenOk script)
     (ht : Nat) (hht : ht < 2 ^ 32) :
     signatureHash c tx us script idx ht =
       .ok (beNat (signatureHashLegacy (sha (legacySingleSha c)) tx idx script ht)) := by
   unfold signatureHash legacySignatureHash signatureHashLegacy
-  simp only [hc', Bool.false_eq_true, if_false, legacyPreimage_eq c tx hwf idx hidx script hc hlen ht hht]
+  simp only [hc', Bool.false_eq_true, if_false, legacyPreimage_eq_tw c tx hwf idx hidx script hc hlen ht hht]
   cases h : (fHashSingle ht && decide (idx ≥ tx.outs.length)) with
   | true => simp [beNat_one]
   | false => simp
 
+/-- C04.legacy_digest_eq: the same for every script code whose pushes are complete -/
+theorem C04_legacy_digest_eq (c : Coin) (hc' : requiresForkId c = false) (tx : Tx) (us : List (Option TxOut)) (hwf : tx.WF)
+    (idx : Nat) (hidx : idx < tx.ins.length) (script : Bytes) (hc : Complete script) (hlen : LenOk script)
+    (ht : Nat) (hht : ht < 2 ^ 32) :
+    signatureHash c tx us script idx ht =
+      .ok (beNat (signatureHashLegacy (sha (legacySingleSha c)) tx idx script ht)) :=
+  C04_legacy_digest_eq_tailWritten c hc' tx us hwf idx hidx script (tailWritten_of_complete hc) hlen ht hht
+
 /-! ## OP_CODESEPARATOR stripping and signature removal -/
 
-/-- C04.codeseparator_strip: `delete_subscript(script, OP_CODESEPARATOR)` followed by the length-prefixed write is
-`SerializeScriptCode`, for every script whose pushes are complete -/
-theorem C04_codeseparator_strip (code : Bytes) (hc : Complete code) :
+/-- C04.codeseparator_strip, for **every** script code: `delete_subscript(script, OP_CODESEPARATOR)` drops the
+one-byte `ab` instructions of the part Core's `GetScriptOp` decodes and keeps the undecodable rest `T` (empty, or
+starting with a push cut short by the end of the script) as it is; the result has the length `SerializeScriptCode`
+announces (`size − #OP_CODESEPARATOR`); and `SerializeScriptCode` writes the same bytes, except that of `T` it writes
+only the `failAdvance T` bytes the failed `GetScriptOp` moved over -/
+theorem C04_codeseparator_strip (code : Bytes) :
+    ∃ body, deleteSubscript code Gen.Sighash.strippedSubscript = .ok (body ++ instrTail code) ∧
+      (body ++ instrTail code).length ≤ code.length ∧
+      serializeScriptCode code =
+        compactSize (body ++ instrTail code).length ++ (body ++ (instrTail code).take (failAdvance (instrTail code))) :=
+  ⟨strippedBody code, strip_serializeScriptCode_all code⟩
+
+/-- C04.codeseparator_strip (exact scope): the length-prefixed write of the stripped script is `SerializeScriptCode`
+**iff** Core writes the whole undecodable rest -/
+theorem C04_codeseparator_strip_iff (code : Bytes) :
+    (∃ stripped, deleteSubscript code Gen.Sighash.strippedSubscript = .ok stripped ∧
+      serializeScriptCode code = varBytes stripped) ↔ TailWritten code := by
+  constructor
+  · rintro ⟨s, h1, h2⟩
+    rw [(strip_serializeScriptCode_all code).1] at h1
+    rw [← Except.ok.inj h1] at h2
+    exact (strip_serializeScriptCode_iff code).mp h2
+  · intro h
+    obtain ⟨s, h1, _, h2⟩ := strip_is_serializeScriptCode_tw code h
+    exact ⟨s, h1, h2⟩
+
+/-- C04.codeseparator_strip for scripts whose pushes are complete (the form the property needs for every script that
+can validate) -/
+theorem C04_codeseparator_strip_complete (code : Bytes) (hc : Complete code) :
     ∃ stripped, deleteSubscript code Gen.Sighash.strippedSubscript = .ok stripped ∧
-      serializeScriptCode code = varBytes stripped := by
-  obtain ⟨s, h1, _, h2⟩ := strip_is_serializeScriptCode code hc
-  exact ⟨s, h1, h2⟩
+      serializeScriptCode code = varBytes stripped :=
+  (C04_codeseparator_strip_iff code).mpr (tailWritten_of_complete hc)
 
-/-- C04.findAndDelete_eq (partial: the extra hypothesis is `Complete script`, i.e. no truncated push): removing a
-signature as `_delete_signature` does equals Core's `FindAndDelete(script, CScript() << sig)` -/
-theorem C04_findAndDelete_eq_partial (script sig : Bytes) (hc : Complete script) (hl : sig.length < 2 ^ 32) :
+/-- C04.findAndDelete_eq, for **every** script: removing a signature as `_delete_signature` does equals Core's
+`FindAndDelete(script, CScript() << sig)` (the walk stops at a push cut short by the end of the script and the rest is
+kept as it is) -/
+theorem C04_findAndDelete_eq (script sig : Bytes) (hl : sig.length < 2 ^ 32) :
     deleteSignature script sig = .ok (findAndDelete script (pushData sig)) :=
-  deleteSignature_eq_findAndDelete script sig hc hl
+  deleteSignature_eq_findAndDelete script sig hl
 
-theorem filter_flatten_le (l : List Bytes) (p : Bytes → Bool) : (l.filter p).flatten.length ≤ l.flatten.length := by
-  induction l with
-  | nil => simp
-  | cons a as ih =>
-    simp only [List.filter_cons]
-    split <;> simp only [List.flatten_cons, List.length_append] <;> omega
+/-- C04.findAndDelete_eq for the signature list of a CHECKMULTISIG -/
+theorem C04_findAndDelete_list_eq (script : Bytes) (sigs : List Bytes) (hl : ∀ s ∈ sigs, s.length < 2 ^ 32) :
+    deleteSignatures script sigs = .ok (scriptCodeFor script sigs) :=
+  deleteSignatures_eq_scriptCodeFor sigs script hl
+
+/-- C04.findAndDelete_complete: removing signature pushes keeps complete pushes complete, leaves the undecodable rest of
+the script alone, and never lengthens the script -/
+theorem C04_findAndDelete_complete (script : Bytes) (sigs : List Bytes) (hl : ∀ s ∈ sigs, s.length < 2 ^ 32) :
+    (Complete script → Complete (scriptCodeFor script sigs)) ∧
+    (TailWritten script → TailWritten (scriptCodeFor script sigs)) ∧
+    (scriptCodeFor script sigs).length ≤ script.length :=
+  scriptCodeFor_facts sigs script hl
 
 theorem sha_false : sha false = Pycoin.Hash.dsha256 := by
   funext b; simp [sha]
 
-/-- C04.closure_eq (partial: the extra hypothesis `hc2` — the script left by FindAndDelete has complete pushes —
-follows from `hc` but is not derived here): the closure of `_make_sighash_f` with one signature to remove (CHECKSIG)
-is FindAndDelete followed by the legacy digest -/
-theorem C04_closure_eq_partial (c : Coin) (hc' : requiresForkId c = false) (hd : closureDeletesSigs c = true) (tx : Tx)
-    (us : List (Option TxOut)) (hwf : tx.WF) (idx : Nat) (hidx : idx < tx.ins.length) (script sig : Bytes)
-    (hc : Complete script) (hc2 : Complete (findAndDelete script (pushData sig))) (hlen : LenOk script)
-    (hl : sig.length < 2 ^ 32) (ht : Nat) (hht : ht < 2 ^ 32) :
-    sighashF c tx us script [sig] idx ht =
-      .ok (beNat (signatureHashLegacy (sha (legacySingleSha c)) tx idx (scriptCodeFor script [sig]) ht)) := by
-  have hlen2 : LenOk (findAndDelete script (pushData sig)) := by
-    have h1 := deleteSignature_eq_findAndDelete script sig hc hl
-    obtain ⟨h2, h3⟩ := deleteSignature_subscript sig hl
-    unfold deleteSignature at h1
-    rw [h2] at h1
-    simp only [h3] at h1
-    rw [deleteSubscript_complete script _ hc] at h1
-    have h4 := Except.ok.inj h1
-    rw [← h4]
-    have h5 := instrSections_flatten script hc
-    have := filter_flatten_le (instrSections script) (fun s => decide (s ≠ pushData sig))
-    rw [h5] at this
-    unfold LenOk at hlen ⊢
-    omega
+/-- C04.closure_scriptcode, for **every** script: the closure of `_make_sighash_f` hands `_signature_hash` the script
+code consensus computes (`FindAndDelete` of every signature push; Bitcoin Cash: the script as it stands) -/
+theorem C04_closure_scriptcode (c : Coin) (tx : Tx) (us : List (Option TxOut)) (script : Bytes) (sigs : List Bytes)
+    (hl : ∀ s ∈ sigs, s.length < 2 ^ 32) (idx ht : Nat) :
+    sighashF c tx us script sigs idx ht =
+      signatureHash c tx us (if closureDeletesSigs c then scriptCodeFor script sigs else script) idx ht := by
   unfold sighashF
-  simp only [hd, if_true, deleteSignatures, deleteSignature_eq_findAndDelete script sig hc hl]
-  rw [C04_legacy_digest_eq c hc' tx us hwf idx hidx _ hc2 hlen2 ht hht]
-  rfl
+  cases closureDeletesSigs c with
+  | true => simp [deleteSignatures_eq_scriptCodeFor sigs script hl]
+  | false => simp
+
+/-- C04.closure_eq: the closure of `_make_sighash_f` with the signatures of a CHECKSIG / CHECKMULTISIG to remove is
+FindAndDelete followed by the legacy digest (no hypothesis about the script left by FindAndDelete: it inherits
+`TailWritten`, `Complete` and the length bound from the script) -/
+theorem C04_closure_eq (c : Coin) (hc' : requiresForkId c = false) (hd : closureDeletesSigs c = true) (tx : Tx)
+    (us : List (Option TxOut)) (hwf : tx.WF) (idx : Nat) (hidx : idx < tx.ins.length) (script : Bytes) (sigs : List Bytes)
+    (hc : TailWritten script) (hlen : LenOk script)
+    (hl : ∀ s ∈ sigs, s.length < 2 ^ 32) (ht : Nat) (hht : ht < 2 ^ 32) :
+    sighashF c tx us script sigs idx ht =
+      .ok (beNat (signatureHashLegacy (sha (legacySingleSha c)) tx idx (scriptCodeFor script sigs) ht)) := by
+  obtain ⟨_, h2, h3⟩ := scriptCodeFor_facts sigs script hl
+  have hlen2 : LenOk (scriptCodeFor script sigs) := by unfold LenOk at hlen ⊢; omega
+  rw [C04_closure_scriptcode c tx us script sigs hl idx ht, hd, if_pos rfl]
+  exact C04_legacy_digest_eq_tailWritten c hc' tx us hwf idx hidx _ (h2 hc) hlen2 ht hht
 
 /-- the witness of DESIGN.md §8 row 23: `05 ab ab` (a push of 5 bytes cut short after 2) -/
 def truncWitness : Bytes := [0x05, 0xab, 0xab]
 
-theorem truncWitness_model : deleteSubscript truncWitness Gen.Sighash.strippedSubscript = .ok [0x05, 0xab] := by
-  have h0 := getOpcodes_step_trunc truncWitness 0 0x05 [0xab, 0xab] rfl (by decide)
-  have h2 := getOpcodes_step truncWitness 2 0xab [] rfl 0xab [] [] (by decide)
-  have h3 := getOpcodes_end truncWitness 3 (by decide)
-  have e1 : Script.truncPc 0 (0x05 : UInt8).toNat [0xab, 0xab] = 2 := by decide
-  have e2 : truncWitness.length - ([] : Bytes).length = 3 := by decide
-  rw [e1] at h0
-  rw [e2, h3] at h2
-  rw [h2] at h0
-  unfold deleteSubscript sections
-  rw [h0]
-  rfl
+/-- regression (fixed: the walker stepped into the truncated push, resynchronised there and stripped the second `ab`):
+the repaired `delete_subscript` keeps `05 ab ab` as it is, and signature removal on a script ending so is FindAndDelete -/
+example : deleteSubscript truncWitness Gen.Sighash.strippedSubscript = .ok [0x05, 0xab, 0xab] := by
+  rw [(strip_serializeScriptCode_all truncWitness).1]; exact congrArg Except.ok (by decide)
+example : deleteSignature (0x01 :: 0x30 :: truncWitness) [0x30] = .ok truncWitness := by
+  rw [C04_findAndDelete_eq _ _ (by decide)]; exact congrArg Except.ok (by decide)
+example : ¬ Complete truncWitness ∧ ¬ TailWritten truncWitness ∧ TailWritten [0x51, 0x05] ∧ ¬ Complete [0x51, 0x05] := by decide
 
-/-- C04.findAndDelete_eq (refuted without the completeness hypothesis): on the script code `05 ab ab` pycoin's
-instruction walker resynchronises inside the truncated push and strips the second `ab`; `SerializeScriptCode` does not.
-(Such a script can never validate: execution fails at the truncated push.) -/
-theorem C04_findAndDelete_eq_refuted :
+/-- C04.codeseparator_strip (refuted as an equality of serialisations without `TailWritten`): for the script code
+`05 ab ab` pycoin serialises `03 05 ab ab`; Core's `SerializeScriptCode` announces three bytes and writes one, `03 05`
+(its last `write` ends where the failed `GetScriptOp` left the iterator).  No value of a `TxIn.script` serialises to
+that; such a script can never validate (execution fails at the truncated push). Recorded as known finding
+`truncated-push-short-write`. -/
+theorem C04_codeseparator_strip_refuted :
     ¬ ∀ code : Bytes, ∃ stripped, deleteSubscript code Gen.Sighash.strippedSubscript = .ok stripped ∧
       serializeScriptCode code = varBytes stripped := by
   intro h
-  obtain ⟨s, h1, h2⟩ := h truncWitness
-  rw [truncWitness_model] at h1
-  have := Except.ok.inj h1
-  subst this
-  revert h2
+  have := (C04_codeseparator_strip_iff truncWitness).mp (h truncWitness)
+  revert this
   decide
 
 /-! ## BIP143 -/
